@@ -3,6 +3,7 @@ package circl
 
 import (
 	"crypto/cipher"
+	"errors"
 	"io"
 
 	bls12381 "github.com/cloudflare/circl/ecc/bls12381"
@@ -18,7 +19,18 @@ type G2Elt struct{ inner bls12381.G2 }
 func (p *G2Elt) MarshalBinary() (data []byte, err error) { return p.inner.BytesCompressed(), nil }
 
 // UnmarshalBinary populates the point from a compressed point representation.
-func (p *G2Elt) UnmarshalBinary(data []byte) error { return p.inner.SetBytes(data) }
+func (p *G2Elt) UnmarshalBinary(data []byte) error {
+	// kyber only produces and accepts the compressed form. CIRCL's SetBytes would also read the
+	// uncompressed form, and panics (slice bounds out of range) when the flag byte announces
+	// an uncompressed encoding that the buffer is too short for.
+	if len(data) != p.MarshalSize() {
+		return errors.New("bls12-381.G2: wrong length")
+	}
+	if data[0]&0x80 == 0 {
+		return errors.New("bls12-381.G2: not a compressed point")
+	}
+	return p.inner.SetBytes(data)
+}
 
 func (p *G2Elt) String() string { return p.inner.String() }
 
